@@ -50,6 +50,8 @@ def start(bins, home, fe, verb, spelling, tag, sim_extra=None, env_extra=None):
     sc = dict(sim, type="asa", hostname="router", log=log)
     scen = os.path.join(home, "scenario-%s.json" % tag)
     json.dump(sc, open(scen, "w"))
+    # (the verif gates of the repository run the garbage collector and pending finalizers before they signal, so
+    # a lock that is only kept alive by an unreferenced *os.File is lost deterministically at those phases)
     env = dict(os.environ, HOME=home, TEST_TIME=S.TEST_TIME,
                SIMULATE_ROUTER="%s %s" % (os.path.join(bins, "consim"), scen))
     env.update(env_extra or {})
